@@ -93,7 +93,12 @@ def run_tlc(module, cfg, wd, env=None, workers=4, timeout=1800, extra=None, dfs=
         e.update(env)
     meta = os.path.join(wd, "meta_" + (out_name or module))
     shutil.rmtree(meta, ignore_errors=True)
-    cmd = ["timeout", str(timeout), tlc_cmd(), "-workers", str(workers), "-metadir", meta,
+    # java is started directly (not through the `tlc` wrapper) so that -Xss is on the command line:
+    # the launcher sizes the MAIN thread's stack from it (JAVA_TOOL_OPTIONS is read too late for that),
+    # and TLC evaluates the initial states and their invariants on the main thread
+    java = ["java", "-Xss1g", "-XX:+UseParallelGC", "-cp",
+            TLC_JAR + ":/opt/veriftools/tla/CommunityModules-deps.jar", "tlc2.TLC"]
+    cmd = ["timeout", str(timeout)] + java + ["-workers", str(workers), "-metadir", meta,
            "-cleanup", "-noGenerateSpecTE", "-config", os.path.join(SPEC, cfg)]
     if coverage:
         cmd += ["-coverage", "1"]
